@@ -90,7 +90,7 @@ def suite(patch, full):
     t = time.time()
     pk = [] if full else packages_for(patch)
     scope = "--workspace" if full else " ".join("-p " + p for p in pk)
-    rc, o = sh(f"cargo nextest run {scope} --no-fail-fast --tool-config-file pb:/w/lib/nextest.toml --profile pb --test-threads 8 --offline 2>&1 | tail -400", timeout=4 * 3600)
+    rc, o = sh(f"cargo nextest run {scope} --no-fail-fast --tool-config-file pb:/w/lib/nextest.toml --profile pb --test-threads 6 --offline 2>&1 | tail -400", timeout=4 * 3600)
     summary = [l.strip() for l in o.splitlines() if "Summary" in l or "tests run" in l]
     failed = sorted(set(FAIL_RE.findall(o)))
     rerun = []
@@ -123,9 +123,31 @@ def suite(patch, full):
             "failing_alone_with_change_but_also_on_unchanged_tree_right_now (load)": [f"{b} {t}" for b, t in also_on_unchanged],
             "still_failing_alone": [f"{b} {t}" for b, t in still if (b, t) not in also_on_unchanged]}
 
+def suite_only(name):
+    """second stage for a change already stored under /verif/seeded/<name>: the repository's own tests (scoped
+    to the packages that exercise the touched code) with the change applied; the verdict goes into meta.json"""
+    dst = os.path.join(ROOT, "seeded", name)
+    patch = os.path.join(dst, "patch.diff")
+    head = ensure_worktree()
+    rc, o = sh(["git", "apply", patch])
+    if rc != 0:
+        raise SystemExit(f"patch does not apply: {o}")
+    res = suite(patch, "--full-suite" in sys.argv)
+    sh("git checkout -q -- . && git clean -fdq")
+    meta = json.load(open(os.path.join(dst, "meta.json")))
+    meta.setdefault("confirmation", {})["existing_suite_with_change"] = res
+    meta["confirmation"]["existing_suite_confirmed_at_repo_head"] = head
+    meta["confirmation"]["existing_suite_verdict"] = "passes" if not res["still_failing_alone"] else "FAILS"
+    json.dump(meta, open(os.path.join(dst, "meta.json"), "w"), indent=1)
+    print(name, meta["confirmation"]["existing_suite_verdict"], res["summary"], res["wall_s"], res["still_failing_alone"])
+    sys.exit(0 if not res["still_failing_alone"] else 1)
+
 def main():
     if sys.argv[1] == "--cleanup":
         cleanup()
+        return
+    if sys.argv[1] == "--suite-only":
+        suite_only(sys.argv[2])
         return
     src, name = sys.argv[1], sys.argv[2]
     skip_suite = "--skip-suite" in sys.argv
